@@ -22,3 +22,6 @@ int g_w11;
 #ifdef UNIT_ORDERED
 Slot g_S[2]; Slot g_anon; WList *g_rm_list; long g_rm_idx; WList *g_ins_list; long g_ins_idx; _Bool g_lt01, g_lt10, g_sort_calls;
 #endif
+#ifdef UNIT_SCOPEDREMOVER
+Node *g_H; _Bool g_created, g_att, g_H_held, g_other_alive; CLT *g_att_cl; EDT *g_att_ed; int g_att_ev; ItemC g_IC, g_anonC; ItemD g_ID, g_anonD; int g_removes_H, g_removes_foreign;
+#endif
